@@ -61,7 +61,7 @@ def psObs (bos : Bool) : Obs (PS Int) :=
   { internal := fun s => jarr (s.active.map optNat), nstore := fun s => s.nlen,
     probeGate := fun s ms => s.gate 0 ms, probeMeas := fun s ms => s.measure ms,
     probeDel := fun s ms => s.delMode ms,
-    stateModes := fun s ms => if bos then .error .value else s.stateModesG ms }
+    stateModes := fun s ms => if bos then s.stateModesB ms else s.stateModesG ms }
 
 def beJson {B} (o : BackendOps Int B) (ob : Obs B) (b : B) : List (String × Json) :=
   [("gm", natList (o.getModes b)), ("internal", ob.internal b), ("nstore", jnat (ob.nstore b)),
@@ -91,6 +91,10 @@ def runHistJson {B} (o : BackendOps Int B) (ob : Obs B) (n0 : Nat) (evs : List J
       match Prog.fresh (← getNat j "n") with
       | .ok p => s := { s with prog := p }; out := out.push (Json.mkObj (("r", Json.str "ok") :: progJson p))
       | .error er => out := out.push (Json.mkObj (("r", Json.str (errStr er)) :: progJson s.prog))
+    else if e == "resetkeep" then
+      -- `eng.reset()` while the user keeps building on `Program(prev)` (its register may have holes)
+      s := { s with prev := none, be := o.reset s.be }
+      out := out.push (Json.mkObj ((("r", Json.str "ok") :: progJson s.prog) ++ beJson o ob s.be))
     else if e == "poke" then
       -- append to the program that has just been run (it is locked); nothing is kept
       let locked := s.prog.lock
